@@ -251,7 +251,8 @@ def mainSwitch (pp : PP) (l : ML) : PP × ML × Flow :=
                haveEnc := pp.cenc.isSome, state := .nestedProcessEntryHeaders },
      { l with stateChanged := true }, .again)
   | .nestedProcessEntryHeaders =>
-    let pp0 := { pp with valueOffset := 0 }
+    -- (fix F15b: every nested element is reported at least once, like the top-level ones)
+    let pp0 := { pp with valueOffset := 0, mustIkvi := true }
     let (pp1, io, ok) := processMultipartHeaders pp0 l.ioff .nestedProcessValueToBoundary
     if ok then (pp1, { l with ioff := io, stateChanged := true }, .again)
     else if pp1.state = .error then (pp1, { l with ioff := io }, .ret)
